@@ -2,6 +2,7 @@ package main
 
 import (
 	"fmt"
+	"strings"
 
 	"github.com/semihalev/twig"
 )
@@ -97,6 +98,58 @@ func c06RenderedOutsideFirst(res *Result) {
 					Detail:   fmt.Sprintf("the widget was rendered %d times outside the sandbox first (its callbacks ran %d times there, as they may)", times, outside)})
 			} else if err == nil {
 				res.add(Finding{Kind: "oracle", Where: "c06-rendered-outside-first/" + name, Case: c, Expected: "a security violation", Observed: fmt.Sprintf("output %q, no error", out)})
+			}
+		}
+	}
+}
+
+// c06LongTemplates: the positions again in sandboxed templates longer than 4096 bytes (read by the other tokenizer),
+// written tightly and with blanks.
+func c06LongTemplates(res *Result) {
+	pad := strings.Repeat("<p>static text of the widget</p>\n", 160) // 5280 bytes
+	inner := map[string]string{
+		"filter": "<{{ x|spy }}>", "filter-blanks": "<{{ x | spy }}>", "chain": "<{{ x|upper|spy|upper }}>", "function": "<{{ spyfn(1) }}>", "for-sequence": "{% for i in xs|spy %}{{ i }}{% endfor %}",
+		"for-sequence-blanks": "{% for i in xs | spy %}{{ i }}{% endfor %}", "for-key-value": "{% for k, i in xs|spy %}{{ i }}{% endfor %}", "for-chain": "{% for i in xs|spy|reverse %}{{ i }}{% endfor %}",
+		"for-function": "{% for i in spyfn(xs) %}{{ i }}{% endfor %}", "apply": "{% apply spy %}a{% endapply %}", "set": "{% set y = x|spy %}{{ y }}", "if": "{% if x|spy %}y{% endif %}", "argument": "<{{ x|default(spyfn(2)) }}>",
+		"for-if": "{% for i in xs|spy if i %}{{ i }}{% endfor %}", "set-capture": "{% set y %}{{ x|spy }}{% endset %}{{ y }}", "include-with": "{% include 'plain' with {'v': x|spy} %}",
+	}
+	for name, src := range inner {
+		for _, where := range []string{"short", "padding-after", "padding-before", "padding-both"} {
+			widget := src
+			switch where {
+			case "padding-after":
+				widget = src + pad
+			case "padding-before":
+				widget = pad + src
+			case "padding-both":
+				widget = pad + src + pad
+			}
+			filterCalls, functionCalls := 0, 0
+			e := twig.New()
+			e.AddFilter("spy", func(v interface{}, _ ...interface{}) (interface{}, error) { filterCalls++; return v, nil })
+			e.AddFunction("spyfn", func(a ...interface{}) (interface{}, error) {
+				functionCalls++
+				if len(a) > 0 {
+					return a[0], nil
+				}
+				return "f", nil
+			})
+			e.EnableSandbox(&twig.DefaultSecurityPolicy{AllowedFilters: map[string]bool{"upper": true, "default": true, "reverse": true}, AllowedFunctions: map[string]bool{},
+				AllowedTags: map[string]bool{"for": true, "apply": true, "include": true, "set": true, "if": true}})
+			if e.RegisterString("widget", widget) != nil {
+				continue
+			}
+			e.RegisterString("plain", "{{ v }}")
+			e.RegisterString("page", "[{% include 'widget' sandboxed %}]")
+			c := Case{"stream": "c06-long-templates", "position": name, "widget": src, "padding": where, "bytes": len(widget)}
+			res.Hist["stream:c06-long-templates"]++
+			res.Evaluations++
+			out, err := e.Render("page", map[string]interface{}{"x": "v", "xs": []interface{}{1, 2}})
+			if filterCalls+functionCalls > 0 {
+				res.add(Finding{Kind: "oracle", Where: "c06-long-templates/" + name + "/" + where, Case: c, Expected: "no spy invoked below the sandboxed include",
+					Observed: fmt.Sprintf("filter spy %d times, function spyfn %d times; output of %d bytes, err %v", filterCalls, functionCalls, len(out), err)})
+			} else if err == nil {
+				res.add(Finding{Kind: "oracle", Where: "c06-long-templates/" + name + "/" + where, Case: c, Expected: "a security violation", Observed: fmt.Sprintf("output of %d bytes, no error", len(out))})
 			}
 		}
 	}
